@@ -221,6 +221,90 @@ V('c08-process-tcp-ignored-caps', 'C08', IT,
             &ChecksumCapabilities::ignored()
         ));""", 'R08.3')
 
+V('c01-fin-behind-hole', 'C01', T,
+  """        if control == TcpControl::Fin && (window_start < segment_start || window_end < segment_end)
+        {""",
+  """        if control == TcpControl::Fin && window_end < segment_end {""", 'R01.1')
+V('c01-fin-right-edge', 'C01', T,
+  """        if control == TcpControl::Fin && (window_start < segment_start || window_end < segment_end)
+        {""",
+  """        if control == TcpControl::Fin && window_start < segment_start {""", 'R01.1')
+V('c01-write-offset-plus-one', 'C01', T,
+  """        let len_written = self.rx_buffer.write_unallocated(payload_offset, payload);""",
+  """        let len_written = self.rx_buffer.write_unallocated(payload_offset + 1, payload);""", 'R04.2')
+V('c01-fast-retransmit-seq', 'C01', T,
+  """                        .min(self.remote_win_len);
+                    repr.seq_number = self.local_seq_no;""",
+  """                        .min(self.remote_win_len);""", 'R01.3')
+V('c01-derive-partialord', 'C01', 'src/wire/tcp.rs',
+  """impl cmp::PartialOrd for SeqNumber {
+    fn partial_cmp(&self, other: &SeqNumber) -> Option<cmp::Ordering> {
+        self.0.wrapping_sub(other.0).partial_cmp(&0)
+    }
+}""",
+  """impl cmp::PartialOrd for SeqNumber {
+    fn partial_cmp(&self, other: &SeqNumber) -> Option<cmp::Ordering> {
+        self.0.partial_cmp(&other.0)
+    }
+}""", 'R01.4')
+V('c04-ack-without-buffered', 'C04', T,
+  """            ack_number: Some(self.remote_seq_no + self.rx_buffer.len()),
+            window_len: self.scaled_window(),
+            window_scale: None,
+            max_seg_size: None,
+            sack_permitted: false,
+            sack_ranges: [None, None, None],
+            timestamp: TcpTimestampRepr::generate_reply_with_tsval(
+                self.tsval_generator,
+                self.last_remote_tsval,
+            ),
+            payload: &[],
+        };
+
+        let mut is_zero_window_probe = false;""",
+  """            ack_number: Some(self.remote_seq_no + self.rx_buffer.len() + self.rx_fin_received as usize),
+            window_len: self.scaled_window(),
+            window_scale: None,
+            max_seg_size: None,
+            sack_permitted: false,
+            sack_ranges: [None, None, None],
+            timestamp: TcpTimestampRepr::generate_reply_with_tsval(
+                self.tsval_generator,
+                self.last_remote_tsval,
+            ),
+            payload: &[],
+        };
+
+        let mut is_zero_window_probe = false;""", 'R04.1')
+V('c04-overlap-end-no-window', 'C04', T,
+  """                    let overlap_end = window_end.min(segment_end);""",
+  """                    let overlap_end = segment_end;""", 'R04.2')
+V('c05-fast-retransmit-no-window', 'C05', T,
+  """                        .min(self.tx_buffer.len())
+                        .min(self.remote_win_len);""",
+  """                        .min(self.tx_buffer.len());""", 'R05.1')
+V('c05-mss-unclamped', 'C05', T,
+  """            (State::Listen, TcpControl::Syn) => {
+                tcp_trace!("received SYN");
+                if let Some(max_seg_size) = repr.max_seg_size {
+                    // Treat a zero MSS as if the option were absent, like Linux does.
+                    if max_seg_size != 0 {
+                        self.remote_mss = (max_seg_size as usize).max(MIN_REMOTE_MSS);""",
+  """            (State::Listen, TcpControl::Syn) => {
+                tcp_trace!("received SYN");
+                if let Some(max_seg_size) = repr.max_seg_size {
+                    // Treat a zero MSS as if the option were absent, like Linux does.
+                    if max_seg_size != 0 {
+                        self.remote_mss = max_seg_size as usize;""", 'R05.2')
+V('c05-syn-window-scaled', 'C05', T,
+  """                repr.window_len = u16::try_from(self.rx_buffer.window()).unwrap_or(u16::MAX);""",
+  """                repr.window_len = self.scaled_window();""", 'R05.3')
+V('c05-fin-when-payload-empty', 'C05', T,
+  """                if offset + repr.payload.len() == self.tx_buffer.len() {
+                    match self.state {""",
+  """                if repr.payload.is_empty() || offset + repr.payload.len() == self.tx_buffer.len() {
+                    match self.state {""", 'R05.4')
+
 S('silent-tcp-rename-local', ['C17'], T,
   """        let mut ack_of_fin = false;""",
   """        let mut ack_of_fin = false; let _unused_marker = 0u8;""", 'adds an unused local')
